@@ -1371,7 +1371,9 @@ class ClientRequest(ClientRequestBase):
         ):
             expect = True
 
-        if expect:
+        if expect and self.version >= HttpVersion11:
+            # An HTTP/1.0 peer ignores the expectation and must not send
+            # "100 Continue" (RFC 9110 section 10.1.1): do not wait for it.
             self._continue = self.loop.create_future()
 
     def _update_proxy(
